@@ -21,7 +21,7 @@ macro "gadget_step" : tactic => `(tactic| first
 macro "gadget_eq" : tactic => `(tactic| (
   try simp only [min_A, min_D, min_Z, ark_A, ark_D, ark_Z, ark_one, min_K, R1cs.invG]
   try simp only [fmul_val, fadd_val, fsub_val, fneg_val, fsq_val, ZMod.natCast_zmod_val, Nat.cast_ofNat, Nat.cast_one,
-    Nat.reducePow, beq_true, beq_false, Bool.not_eq_true', Bool.not_eq_false', beq_iff_eq, bne_iff_ne, ne_eq,
+    cast_cA', cast_cD', cast_cK', Nat.reducePow, beq_true, beq_false, Bool.not_eq_true', Bool.not_eq_false', beq_iff_eq, bne_iff_ne, ne_eq,
     Bool.not_eq_true, Bool.not_eq_false, Bool.not_not]
   repeat' (first
     | with_reducible rfl
